@@ -203,6 +203,69 @@ func c14TextReuse(quick bool) C14Group {
 	return g
 }
 
+// c14TextHexCase: "32 hex characters decoded" holds for every spelling of a hex digit. One text connection; on a
+// base of thirty-two '0' every position in turn carries a digit, a lower-case hex letter, an upper-case hex letter
+// and two letters that are not hex digits - once in the key (fixed short id), once in the LOCK_ID (fixed short key) -
+// plus all-upper / all-lower / alternating spellings. The hold must sit on the documented key under the documented id.
+func c14TextHexCase(quick bool) C14Group {
+	g := C14Group{Name: "text-32-character-keys-every-spelling"}
+	var words []string
+	for pos := 0; pos < 32; pos++ {
+		for _, ch := range []byte{'7', 'c', 'C', 'g', 'G'} {
+			b := []byte(strings.Repeat("0", 32))
+			b[pos] = ch
+			words = append(words, string(b))
+		}
+	}
+	words = append(words, "00112233445566778899AABBCCDDEEFF", "00112233445566778899aabbccddeeff", "aAbBcCdDeEfF00112233445566778899", "FFFFFFFFFFFFFFFFFFFFFFFFFFFFFFFF", "ABCDEFABCDEFABCDEFABCDEFABCDEFAG")
+	distinct := map[string]bool{}
+	var msg string
+	rt := vrt.Run(vrt.Options{MaxPoints: 200_000_000}, func() {
+		node := hapi.Factories["n0"](hapi.Config{FastKeys: 4, Concurrent: 1})
+		if err := node.Start(); err != nil {
+			msg = "engine: " + err.Error()
+			return
+		}
+		vrt.AdvanceTo(1300 * ms)
+		tc, _ := wire.Dial(nodeAddr(0))
+		for _, w := range words {
+			for _, inKey := range []bool{true, false} {
+				g.Evaluations++
+				key, id := w, "i"
+				if !inKey {
+					key, id = "k", w
+				}
+				_ = tc.Send(wire.Resp("LOCK", key, "LOCK_ID", id, "TIMEOUT", "0", "EXPRIED", "50"))
+				r := tc.TakeText()
+				snap := node.Snapshot()
+				wk, wi := normKey(key), normKey(id)
+				ks := snap.Key(0, wk)
+				if ks == nil || len(ks.Holds) != 1 || ks.Holds[0].LockId != wi {
+					if msg == "" {
+						msg = fmt.Sprintf("text LOCK %q LOCK_ID %q does not hold the documented key %x under the documented id %x (reply %v; holds: %s)", key, id, wk, wi, r, snap.UserString())
+					}
+				}
+				_ = tc.Send(wire.Resp("UNLOCK", key, "LOCK_ID", id))
+				tc.TakeText()
+				distinct[fmt.Sprintf("%x/%x", wk, wi)] = true
+			}
+		}
+	})
+	if rt.Crash != nil {
+		msg = "crash: " + rt.Crash.Value
+	}
+	if strings.HasPrefix(msg, "engine:") {
+		g.Violations = append(g.Violations, explore.Violation{Sig: "engine", Msg: msg})
+		return g
+	}
+	if msg != "" {
+		g.Violations = append(g.Violations, explore.Violation{Sig: "C14:text-key-not-normalised-as-documented", Msg: msg})
+	}
+	g.Samples = append(g.Samples, fmt.Sprintf("%d spellings of 32-character keys / ids, %d distinct documented (key, id) pairs", 2*len(words), len(distinct)))
+	g.Distinct = len(distinct)
+	return g
+}
+
 // c14TextRememberedId: "UNLOCK key" without LOCK_ID uses the id of the connection's last LOCK (README). Between the
 // LOCK (id given / generated) and the id-less UNLOCK every key-value command form runs on the same connection (on a
 // new key, on an existing key, on a missing key; one or two of them): the UNLOCK must release the lock all the same,
@@ -522,7 +585,7 @@ func init() {
 			return cp.ReplayFile(c, c.Args[1])
 		}
 		groups := RunC14Codec(c.Quick())
-		groups = append(groups, c14TextVsBinary(c.Quick()), c14TextReuse(c.Quick()), c14TextRememberedId(c.Quick()), c14TextOptionWords(c.Quick()), c14TextCounts(c.Quick()), c14BinaryChunking(c.Quick()), c14ValueFrames(c.Quick()))
+		groups = append(groups, c14TextVsBinary(c.Quick()), c14TextReuse(c.Quick()), c14TextHexCase(c.Quick()), c14TextRememberedId(c.Quick()), c14TextOptionWords(c.Quick()), c14TextCounts(c.Quick()), c14BinaryChunking(c.Quick()), c14ValueFrames(c.Quick()))
 		evals, distinct, viol := 0, 0, 0
 		var samples []interface{}
 		per := map[string]interface{}{}
